@@ -39,12 +39,17 @@ CHECKS = {
         text="Accepted bind_config/write_config/delete_config/call_eqv operations and ~25 other primitives applied around configuration "
              "reads and writes (directly and through callees) are run by TLC over the bounded input domain including varied initial "
              "configuration states: all buffers must agree and every configuration field outside the modset reported by the "
-             "equivalence tracker must agree; call_eqv with a same-signature callee of foreign origin must be rejected.",
+             "equivalence tracker must agree; call_eqv with a same-signature callee of foreign origin, or with a variant "
+             "narrowed by add_assertion, must be rejected. The corpus includes a dataflow matrix (a field written early and read "
+             "later under a guard on size / argument / incoming value / a field written in a loop, under an if or by a callee; "
+             "read directly, through a callee or as a bare call argument; adjacent ifs whose guard the first one changes).",
         note="Trusted: TLC, projection, value mode F, sampled initial configuration states."),
     "C12": dict(level=MC, design="6/C12",
         technique="TLA+ trace refinement (ExoAccessTrace mode of ExoMachine): the simplified procedure must replay the source's access trace; TLC",
         text="simplify is applied to generated procedures whose indices, bounds, allocation sizes and conditions are random quasi-affine "
-             "expressions (/, % by literals, negative intermediates, shadowed iterators) and to the results of other primitives; TLC "
+             "expressions (/, % by literals, negative intermediates, shadowed iterators), to a systematic matrix of index forms "
+             "(literal minus expression, negative exact multiples, scaled sums over divisors with several factorisations, "
+             "constants outside [0, d), every nesting of two operators) and to the results of other primitives; TLC "
              "requires the simplified procedure to produce exactly the source's sequence of write/reduce locations and allocation "
              "shapes and the same final state, for every admissible bounded input.",
         note="Trusted: TLC, projection; values of read-only index expressions are observed through final values only."),
@@ -142,7 +147,9 @@ CHECKS = {
              "is re-fingerprinted, and TLC accepts the session only if each observation is a step of the state machine in which "
              "no existing procedure or cursor changed and failing operations define nothing; the repository's own tests are "
              "validated the same way (one session per test: every Procedure the test creates re-fingerprinted after each creation "
-             "and at teardown; one session per file for procedures created at import time).",
+             "and at teardown; one session per file for procedures created at import time), and so are stability sessions: "
+             "the outcomes of a sample of calls on an existing procedure are handles, unrelated (mostly refused) operations on "
+             "other procedures follow, and the same calls must then give the same outcomes (module-level analysis caches).",
         note="Trusted: TLC, the fingerprint function (harness/purity.py); module-level caches observed only through results."),
     "C15": dict(level=MC, design="6/C15",
         technique="TLA+ Annot specification (Consistent over the annotation assignment space) enumerated by TLC and replayed on the real set_precision/set_memory/set_window + compiler; gcc as external judge of validity",
